@@ -426,6 +426,10 @@ var nearMisses = [][2]string{
 	{"($.a == 1) i\u017f unknown", "keyword-letters"}, {"$.time\u017ftamp()", "keyword-letters"}, {"$.\\u017Fize()", "keyword-letters"}, {"$.a li\u212ae_regex \"x\"", "keyword-letters"}, {"$.\u212aeyvalue()", "keyword-letters"},
 	{"$ ? (ex\u0131sts(@.a))", "keyword-letters"}, {"($.a == 1) \u0130s unknown", "keyword-letters"}, {"$.a[0 t\u00f6 1]", "keyword-letters"}, {"$.a \u017ftarts with \"a\"", "keyword-letters"}, {"$.ab\u017f()", "keyword-letters"},
 	{"$.a like_regex \"x\" \ufb02ag \"i\"", "keyword-letters"}, {"$.\u017ftring()", "keyword-letters"}, {"$.a.\u212aeyvalue().key", "keyword-letters"}, {"la\u017f", "keyword-letters"}, {"$.a == nu\u017f", "keyword-letters"},
+	// an escape that stands for NUL is refused wherever it is written - also as
+	// the second escape after a surrogate half
+	{"\"\\uD834\\u0000\"", "escape-nul"}, {"$.a\\uD834\\u0000 x", "escape-nul"}, {"\"\\ud834\\u{0}\"", "escape-nul"}, {"\"\\uD834\\u{}\"", "escape-nul"}, {"$.\"k\\udbff\\u0000\"", "escape-nul"}, {"$\"v\\uD800\\u{00}\"", "escape-nul"},
+	{"$.a\\uD834\\u0000 ? (@ ==", "escape-nul"}, {"$.a\\uD834\\u0000\"unterminated", "escape-nul"}, {"$ ? (@ like_regex \"\\uD834\\u0000\")", "escape-nul"}, {"$.datetime(\"\\uD834\\u0000\")", "escape-nul"}, {"\"\\u{0}\"", "escape-nul"}, {"\"a\\x00b\"", "escape-nul"},
 }
 
 var tokenDict = []string{
